@@ -50,7 +50,9 @@ def register(reg):
                                 "assumed: one int32 delay per frequency, a deterministic function DDF of "
                                 "(dm, tsamp, ref_freq, index) for the frequency grid of the cube",
                  params={"freqs": Arr("real", "f8"), "dm": Real(), "tsamp": Real(), "ref_freq": Real(),
-                         "in_samples": Const(True)}, ret=Arr("int", "i4"))
+                         "in_samples": Const(True)}, ret=Arr("int", "i4"),
+                 # the function ends with .squeeze(): for a single frequency the result is a 0-d array
+                 ret_meta={"zerod_if": "len(freqs) == 1"})
     c.ensure("shape", "len(result) == len(freqs)")
     c.ensure("law", "forall(j, 0, len(freqs), result[j] == DDF(dm, tsamp, ref_freq, j))")
     reg.add(c)
@@ -58,7 +60,7 @@ def register(reg):
     c = Contract(FC + "FoldedData._get_dmdelays", props=["C17"], params={"self": folded_self(), "newdm": Real()},
                  requires=[RI], modifies=["self._fph_shifts"], ret=Arr("int", "i4"))
     c.ensure("RI", RI)
-    c.ensure("shape", "len(result) == self._data.shape[1]")
+    c.ensure("shape", "len(result) == self._data.shape[1] and not zerod(result) and not zerod(self._fph_shifts)")
     c.ensure("target", "forall(j, 0, self._data.shape[1], self._fph_shifts[j] == " + TDM.format(dm="newdm") + ")")
     c.ensure("increment", "forall(j, 0, self._data.shape[1], result[j] + old(self._fph_shifts[j]) == "
              + TDM.format(dm="newdm") + ")")
